@@ -68,11 +68,35 @@ func (w *World) sharingScan() {
 				}
 			}
 		}
-		for b := a + 1; b < len(refs) && refs[b].c.DataPtr < endA; b++ {
+		// (a wide result may hold one container under thousands of keys: the pairs looked at per
+		// chunk are bounded, chunks of one slot over the very same data are looked at once)
+		if a > 0 && refs[a-1].slot == ra.slot && refs[a-1].c.DataPtr == ra.c.DataPtr && refs[a-1].c.NeedCOW == ra.c.NeedCOW && refs[a-1].idx != ra.idx {
+			continue
+		}
+		looked := 0
+		seenSlot := map[int]int{}
+		for b := a + 1; b < len(refs) && refs[b].c.DataPtr < endA && looked < 48; b++ {
 			rb := refs[b]
 			if ra.slot == rb.slot {
+				// two chunks of one bitmap over the same live data: harmless only while both are
+				// flagged (each is copied before its first write)
+				if rb.idx != ra.idx && !(ra.c.NeedCOW && rb.c.NeedCOW) {
+					looked++
+					x, y := ra, rb
+					if x.c.NeedCOW {
+						x, y = rb, ra
+					}
+					if w.selfShareProbe(x, y) {
+						return
+					}
+				}
 				continue
 			}
+			if seenSlot[rb.slot] >= 3 {
+				continue
+			}
+			seenSlot[rb.slot]++
+			looked++
 			w.probe("shared-backing-seen")
 			if ra.c.NeedCOW && rb.c.NeedCOW {
 				continue
@@ -99,6 +123,69 @@ func (w *World) sharingScan() {
 			w.St.StructUnconf++
 		}
 	}
+}
+
+// selfShareProbe: chunks x and y of ONE bitmap lie over the same data and x is not flagged
+// copy-on-write. Decided behaviourally: write through x, the bitmap must still equal its model.
+func (w *World) selfShareProbe(x, y chunkRef) bool {
+	if w.selfProbes >= 3 {
+		return false
+	}
+	key := [2]uintptr{x.c.DataPtr, uintptr(x.slot)<<20 | uintptr(x.idx)}
+	if w.unconf[key] {
+		return false
+	}
+	w.selfProbes++
+	w.probe("chunks-of-one-bitmap-share-data")
+	o := w.B[x.slot]
+	c := o.M.ChunkWords(x.c.Key)
+	if c == nil {
+		return false
+	}
+	present, absent := -1, -1
+	for i := 0; i < 65536 && (present < 0 || absent < 0); i++ {
+		if c[i>>6]&(1<<(uint(i)&63)) != 0 {
+			if present < 0 {
+				present = i
+			}
+		} else if absent < 0 {
+			absent = i
+		}
+	}
+	base := uint32(x.c.Key) << 16
+	hit := false
+	tag := w.curTag + "+C02"
+	pan := w.try(tag, func() {
+		m2 := o.M.Clone()
+		var undo func()
+		if present >= 0 {
+			v := base | uint32(present)
+			o.BM.Remove(v)
+			m2.Remove(v)
+			undo = func() { o.BM.Add(v) }
+		} else {
+			v := base | uint32(absent)
+			o.BM.Add(v)
+			m2.Add(v)
+			undo = func() { o.BM.Remove(v) }
+		}
+		if ok, d := eq32(o.BM, m2); !ok {
+			hit = true
+			w.fail(tag, "self-aliasing", "one container stored under two keys of a bitmap: a write through one key changed the other",
+				fmt.Sprintf("after %s, chunks %#x (not flagged copy-on-write) and %#x of slot %d (%s) share their data; one write inside chunk %#x corrupted the bitmap: %s", w.curOp, x.c.Key, y.c.Key, x.slot, o.Prov, x.c.Key, d))
+			return
+		}
+		undo()
+	})
+	if pan || hit {
+		w.rebuild(x.slot)
+		return true
+	}
+	if w.unconf == nil {
+		w.unconf = map[[2]uintptr]bool{}
+	}
+	w.unconf[key] = true
+	return false
 }
 
 // probeWrite writes through slot x inside chunk key and checks that slot y
